@@ -20,7 +20,13 @@ LEVEL_TEXT = ("Coq theorems in an abstract ordered *-field (Gaussian rationals, 
               "float dtype for real data with allow_singularity=False), claimed while the regenerated text is the proved one.")
 TRUSTED = [TRUSTED_LINE, "Coq 8.16.1 kernel + vm_compute (no native_compute)",
            "aryule_stable_complex / aryule_stable_C only: the three standard-library axioms of the real numbers (sig_forall_dec, sig_not_dec, functional_extensionality_dep) via Coquelicot's C; every other theorem is axiom-free",
-           "hand-written models coq/Model/Yule.v, Corr.v, Levinson.v: aryule, CORRELATION, LEVINSON (and ma of Model/MaEst.v) are tied to yulewalker.py/correlation.py/levinson.py/arma.py by the loop-IR tie (exact; theorems for LEVINSON, CORRELATION and - by composition - aryule); lpc and the pyule attributes by the correspondence run only",
+           "hand-written models coq/Model/Yule.v, Corr.v, Levinson.v: aryule, CORRELATION, LEVINSON (and ma of Model/MaEst.v) are tied to yulewalker.py/correlation.py/levinson.py/arma.py by the loop-IR tie (exact; theorems for LEVINSON, CORRELATION and - by composition - aryule); the pyule attributes by the correspondence run only; "
+           "T10: lpc is under the loop-IR tie too (no theorem): its IR program (fft / ifft = the DFT / inverse DFT specification of Theory/Dft.v over the hidden twiddle parameter, "
+           "tools.nextpow2 = the primitive ENextPow2 accepted only while its text is `res = ceil(log2(x)); return res.astype('int')`, abs(X)**2, real, the division by m-1., the "
+           "zero-padding x.resize(N+1) - an in-place update of the PARAMETER whose effect on the caller is not modelled -, LEVINSON embedded) is regenerated from lpc.py / tools.py / "
+           "levinson.py on every run and compared with Model.Yule.lpc exactly at QcC where exact twiddle characters exist (transform lengths 1, 2, 4, i.e. at most 2 samples after "
+           "padding: Instances/QcCTw.v has no 8-point character, which would need sqrt 2) and at binary64 (harness twiddle table, lengths up to 64) against BOTH the hand model and "
+           "the implementation's output within 1e-8*kappa",
            "numpy.fft inside lpc is modelled by its exact-arithmetic specification (lag sums; transform length >= 2N-1), not verified",
            "pyule: only the stored .ar/.reflection are modelled (the PSD goes through arma2psd: C15/C01 machinery)",
            "Python harness (snapshot, generators, float->dyadic conversion, numpy.linalg oracles of the search)"]
@@ -256,7 +262,9 @@ def run(ctx):
     E_.class_route_stream(ctx, ['pyule'], 'routes')
     # IR programs regenerated from the source vs the hand models: exact, zero tolerance.  aryule and ma are translated WITH their callees
     # (CORRELATION, LEVINSON, aryule: other modules of the package, resolved through the imports) and compared with Model.Yule.aryule / Model.MaEst.ma_est
-    loopir_tie(ctx, ['LEVINSON', 'CORRELATION', 'aryule', 'ma'])
+    # T10: lpc as well: fft / ifft = dft / idft over the hidden twiddle parameter, tools.nextpow2 an IR primitive (text verified), LEVINSON embedded;
+    # exact at QcC for transform lengths 1, 2, 4 (no exact 8-point character), binary64 runs against Model.Yule.lpc AND the implementation
+    loopir_tie(ctx, ['LEVINSON', 'CORRELATION', 'aryule', 'ma', 'lpc'])
     # ---------------- correspondence: aryule (+ pyule attributes)
     cases = []; meta = []
     n = ctx.q(220, 2500); tries = 0
